@@ -300,6 +300,9 @@ class Gen:
             c = (" if %s" % self.cond(1)) if R.random() < 0.5 else ""
             self.ints = saved
             kind = R.choice(["sum([%s for %s in xs%s])", "len([%s for %s in xs%s])", "sum(%s for %s in xs%s)"])
+            if R.random() < 0.25:    # the source filtered by filter(...)
+                flt = R.choice(["filter(None, xs)", "filter(lambda q_: q_ > %s, xs)" % self.const(), "filter(lambda q_: q_ %% 2 == 0, xs)"])
+                kind = kind.replace(" in xs", " in " + flt.replace("%", "%%"))
             self.ints.append(v)
             return ["%s = %s" % (v, kind % (e, x, c))]
         if k == 3 and depth < 2:      # try / except around a call that may raise
@@ -458,7 +461,7 @@ class ToFString(ast.NodeTransformer):
         return node
 
 
-_VOCAB = ("min", "max", "abs", "len", "pf", "d", "xs", "sum", "chk", "pair", "any", "all", "zip", "emit", "ys", "zs", "acc", "o", "r", "cm", "str", "sorted", "ws", "vs", "ps", "qs", "ms", "both", "coll", "twice", "clip", "grow", "rows", "row", "ck", "cv")
+_VOCAB = ("min", "max", "abs", "len", "pf", "d", "xs", "sum", "chk", "pair", "any", "all", "zip", "emit", "ys", "zs", "acc", "o", "r", "cm", "str", "sorted", "ws", "vs", "ps", "qs", "ms", "both", "coll", "twice", "clip", "grow", "rows", "row", "ck", "cv", "filter", "q_")
 
 
 class ExtractMutator(ast.NodeTransformer):
